@@ -81,9 +81,9 @@ METHS = methods()
 
 
 def plan(tier):
-    k = 24 if tier == "quick" else 1500
+    k = 24 if tier == "quick" else 4000
     p = {f"fn:{n}": k for n in FUNCS}
-    p.update({f"m:{o}.{n}": (12 if tier == "quick" else 750) for o, n in METHS})
+    p.update({f"m:{o}.{n}": (12 if tier == "quick" else 2000) for o, n in METHS})
     return p
 
 
@@ -342,12 +342,19 @@ def run_case(mon, kind, idx, rng):
                     mon.note("sets-probed")
                     s.add("<xgimon-sentinel>")
                 mon.ev()
-                after2 = snap.snap(net, uid=True)
-                if after2 != before:
+                # attribute *values* may themselves be sets (merge_rule="union") and attribute dicts are live by
+                # design: the alias probe is about the structural tables only
+                after2 = structural(snap.snap(net, uid=True))
+                if after2 != structural(before):
                     mon.fail(f"{name}|{cls}|internal-set-handed-out", f"{desc}: mutating a set found in the return value changed the network (an internal set was returned without copying)",
                              f"before: {_p(before)}\nafter:  {_p(after2)}")
                     return
         mon.sample(f"{cls}: {desc} -> {outcome}", cap=12)
+
+
+def structural(s):
+    """The snapshot without attribute values: class, node order, (edge, members) in order, memberships, next uid."""
+    return (s[0], [n for n, _ in s[1]], [(e, m) for e, m, _ in s[2]], s[3], s[5])
 
 
 def _p(s):
